@@ -85,4 +85,13 @@ CHECKS = {
         "successfully evaluated parameter vectors and the C03 dataset identities. The fault space of a run is finite, so enumeration is the right level.",
    note="Trusted base: the probe's bookkeeping of completed evaluations. Faults striking while the Result is built are known finding F20 (attributed by phase + identity of the escaping exception).",
    technique="runtime monitoring with fault injection: function-boundary failpoints enumerated over all evaluations + sys.monitoring LINE failpoints; outcome-table oracle"),
+ "C10": dict(category="exploration",
+   text="Five monitors: objective walks on one Optimizer (repeats, returns, injected failures in between) compared bit-for-bit with fresh optimisers; double "
+        "optimisation of every scheme; deep input snapshots around construction / optimisation / failed optimisation; differential schedule runs in child "
+        "processes (numba threads 1-16 x workqueue/omp x chunk sizes x machine load) on workloads proven (by per-kernel call counters) to enter every parallel "
+        "kernel; a write-set monitor that executes every parallel numba kernel's Python source with tracing prange/arrays. Compiler sanitizers and race "
+        "detectors cannot instrument numba's JIT output (DESIGN.md section 1), so interleavings are reached by schedule diversity plus the structural "
+        "write-set argument.",
+   note="Trusted base: bit equality of float arrays; dispatcher.py_func is the source numba compiles. numba's automatic array-expression parallelisation is only covered by the schedule runs.",
+   technique="runtime monitoring: differential execution (history, repetition, thread schedules) + write-set tracing of parallel kernels + input snapshots"),
 }
